@@ -351,6 +351,16 @@ def run(tier, seed):
                     return fr[:k], pay
         return None
 
+    def zsplit_loose(fr):
+        """like zsplit, but the size field in front of the stream need not be the payload's length (what a writer with a wrong size() emits)"""
+        for k in range(8, len(fr) - 2):
+            if fr[k] == 0x78:
+                try:
+                    return fr[:k], zlib.decompress(fr[k:])
+                except zlib.error:
+                    continue
+        return None
+
     zreq, zmeta = [], []
     n_zbig = 0
     for c in conts:
@@ -424,6 +434,12 @@ def run(tier, seed):
                 good = b is not None and a[0][2:] == b[0][szl:] and a[1] == b[1] and size_ok
         if good:
             n_zok += 1
+        elif h.startswith("ok") and a is not None and (b := zsplit_loose(w)) is not None and a[1] == b[1] and a[0][2:-4] == b[0][szl:-4] and a[0][-4:] != b[0][-4:] \
+                and has_flag_elseif(c.get("zmsg_tokens") or c.get("ztokens") or []):
+            # same fields, same payload — only the announced decompressed size differs: the writer takes it from size() of the contents, which is the wrong
+            # constant of the synthesised flag struct (the known finding, here without the size assertion of the plain writers)
+            rep.violation("C01/declared-size/flag-enumerator-constant", f"{c['key']} ({dr}): the compressed writer announces {int.from_bytes(b[0][-4:], 'little')} decompressed bytes for a payload of {len(b[1])}",
+                          {"container": c["key"], "direction": dr, "input_frame_hex": fr.hex()[:4000], "implementation": h[:600], "replay_cmd": f"echo '{rq[:20000]}' | {har}"})
         elif (zsplit(fr) or (None, None))[1] == b"":
             # decompressed size 0 + the zlib stream of the empty string: what the library's own writer emits for an empty payload
             rep.violation("C01/compressed/empty-payload", f"{c['key']} ({dr}): a compressed part with an empty payload is rejected by the reader: {h[:120]}",
